@@ -77,7 +77,7 @@ REGISTRY = {
               description="from every function that accepts a row-ownership range, each call whose resolved callee accepts `ownership` "
                           "receives the caller's range (by keyword or through the keyword dict that carries it): a dropped range silently "
                           "builds every row of the operator"),
-            kronalg.rule_ownership_guard, kronalg.rule_dispatch_sibling_args, kronalg.rule_expec_table, kronalg.rule_ptr_recursion_base, reduceorder.rule_reduce_order, threads.rule_no_nested_pool_wait,
+            kronalg.rule_ownership_guard, kronalg.rule_dispatch_sibling_args, kronalg.rule_expec_table, kronalg.rule_ptr_recursion_base, kronalg.rule_ptr_keep_order, reduceorder.rule_reduce_order, threads.rule_no_nested_pool_wait,
         ],
         "explanation": (
             "static (narrow): decides three structural necessary conditions of C15 — the row-ownership range is delivered along every "
